@@ -74,8 +74,9 @@ impl<L: Language, CF: CostFunction<L>> Extractor<L, CF> {
 
         let mut children = Vec::new();
 
-        // do I need to refresh some slots here?
-        let l = self.map[&i.id].0.apply_slotmap(&i.m);
+        // the stored node may mention redundant slots of its class, which `i.m` does not cover:
+        // they get fresh names.
+        let l = self.map[&i.id].0.apply_slotmap_fresh(&i.m);
         for child in l.applied_id_occurrences() {
             let n = self.extract(&child, eg);
             children.push(n);
